@@ -32,14 +32,15 @@ TECHNIQUE = "Lean 4 theorems over the loop model (script cut at the stop poll) +
 
 
 def project(c, r):
-    return r if c.cmd == "STOP" else R.project(r, KEEP)
+    return r if c.cmd in ("STOP", "STOPX") else R.project(r, KEEP)
 
 
 def gen(ctx):
     rng = ctx.rng
     # "-early": the stop handle is supplied FIRST in the builder chain (every later step - default_alg, additional_alg,
     # try_additional_alg, spawn_thread - has to carry it along)
-    modes = [("inline", "caller"), ("spawn", "caller"), ("spawn", "internal"), ("inline-early", "caller"), ("spawn-early", "caller")]
+    modes = [("inline", "caller"), ("spawn", "caller"), ("spawn", "internal"), ("inline-early", "caller"), ("spawn-early", "caller"),
+             ("inline-raw", "caller"), ("spawn-raw", "caller")]   # -raw: with_raw_stop_handle(Arc::into_raw(..))
     for run, handle in modes:
         for point in ("pre", "blocked", "flood", "badmsg"):
             if point == "badmsg" and handle == "internal":
@@ -51,6 +52,9 @@ def gen(ctx):
         else:
             for k in (0, 3):
                 yield Case("STOP", "%s %s mid %d" % (run, handle, k), tags=("stop-mid",))
+    # the bundled transports themselves (every constructor): a stop requested while nothing arrives
+    for kc in ("unix new", "unix skbuf", "unix skbufsz", "chan b"):
+        yield Case("STOPX", kc, tags=("stop-real-transport",))
     # every cut point of scripted histories
     for _ in range(300 if ctx.thorough else 25):
         algs, allp = R.gen_cfg(rng, rich=False)
@@ -65,7 +69,7 @@ def classify(c, r):
 
 
 def nontrivial(c, r):
-    return (c.cmd == "STOP" and "pre" not in c.args) or (c.cmd == "RUN" and ("NF " in r or "RP " in r))
+    return c.cmd == "STOPX" or (c.cmd == "STOP" and "pre" not in c.args) or (c.cmd == "RUN" and ("NF " in r or "RP " in r))
 
 
 def oracle(c, impl_res):
